@@ -216,3 +216,16 @@ Theorem C12_header_full_forgets : forall on_repr r e ps w,
   {| h_impl_params := map fst (hf_params h); h_trait_arg := hf_trait_arg h; h_self := hf_self h |}.
 Proof. exact Proofs.header_full_forgets. Qed.
 Print Assumptions C12_header_full_forgets.
+
+(* ================================================================== one constant / arm per field-less variant *)
+
+(** unconditionally (no range, distinctness or compile hypothesis): the generated constants are exactly the field-less
+    variants, each once, in declaration order *)
+Theorem C12_consts_variants : forall paren vs, map fst (consts paren vs) = filter fieldless vs.
+Proof. exact Proofs.consts_variants. Qed.
+Print Assumptions C12_consts_variants.
+
+Theorem C12_arms_are_fieldless_in_order : forall paren t vs tbl,
+  eval_consts t (consts paren vs) = Some tbl -> map fst tbl = filter fieldless vs.
+Proof. exact Proofs.arms_are_fieldless_in_order. Qed.
+Print Assumptions C12_arms_are_fieldless_in_order.
